@@ -208,6 +208,20 @@ def R4_fee_manager_ports(run):
     # the sibling comparison ignores casts; the widths of the intermediate products are checked separately (same rule as C14.R7)
     from rules import C14
     C14.check_widths(run, "R4", run.sdk, AFV_S, FRM_S, tag="sdk:")
+    # ... and it compares sets, not order: like the program's (C14.R3), the SDK's `new` sizes the saturation range from the *updated*
+    # reference - every read of volatility_reference / tick_group_index_reference comes after update_reference()
+    from rules.common import field_reads
+    nw = run.sdk.need_fn(FRM_S + "new")
+    ur = [bi for bi, t in nw.calls() if (callee_path(t) or "").endswith("update_reference") and not nw.blocks[bi]["c"]]
+    early = []
+    if len(ur) == 1:
+        for fld in ("volatility_reference", "tick_group_index_reference"):
+            for (bi_, si_) in field_reads(nw, fld):
+                if not (cfg.dominates(nw, ur[0], bi_) and bi_ != ur[0]):
+                    early.append(fld)
+    run.check("R4", "sdk:range-from-updated-reference", len(ur) == 1 and not early and bool(field_reads(nw, "volatility_reference")),
+              "the SDK's FeeRateManager::new reads %s before update_reference(): the saturation range is sized from the stale reference" % (sorted(set(early)) or "the reference fields nowhere / update_reference is not called once"),
+              loc=nw.loc(), detail="reference fields read only after update_reference()?")
     # is_major_swap: different 256-bit formulation; same shape: larger >= (smaller * price(threshold)) >> 64
     K = run.sdk
     fn = K.need_fn(AFV_S + "is_major_swap")
@@ -719,6 +733,17 @@ def R3_loop(run):
             ok = ok and bool(some_blocks) and all(b_ in cfg.reach(sfn, at.true_targets[0], cut_blocks=[at.block]) and b_ not in cfg.reach(sfn, at.false_targets[0], cut_blocks=[at.block]) for b_ in some_blocks)
             steps = {callee_path(t).rsplit("::", 1)[-1] for _, t in sfn.calls() if "initializable_tick_index" in (callee_path(t) or "")}
             ok = ok and stepper in steps
+        # what the search refuses: only a start past its own far edge (next: tick_index >= end_index; prev: tick_index < start_index).
+        # The program's b_to_a search accepts a start up to one spacing below the first array (shifted range): a lower-bound test
+        # added to `next` refuses states the program trades on
+        ref = [at for at in A.atoms(sfn) if at.true_fail != at.false_fail and (at.true_codes | at.false_codes)]
+        okr = len(ref) == 1
+        if okr:
+            from rules.common import decided
+            dc = decided(ref[0], lambda t: is_param(t, "tick_index"), ("Ge", "Lt"))
+            okr = dc is not None and is_call(dc[2], edge) and dc[0] == ("Ge" if name == "next_initialized_tick" else "Lt") and cfg.fail_only(sfn, dc[3][0])
+        run.check("R3", "sequence-refusals@" + name, okr, "SDK %s refuses on %s; expected only `tick_index %s %s()`" % (name, [at.describe()[:60] for at in ref], ">=" if name == "next_initialized_tick" else "<", edge),
+                  loc=sfn.loc(), detail="one refusal: tick_index %s %s()" % (">=" if name == "next_initialized_tick" else "<", edge))
         # inclusiveness: the a_to_b (prev) search examines the start tick itself first - the program's a_to_b search is inclusive, an
         # initialised tick at the current index must be crossed; the b_to_a (next) search steps before it looks
         lookups = [bi for bi, t in sfn.calls() if (callee_path(t) or "").endswith(">::tick") and not sfn.blocks[bi]["c"]]
